@@ -18,7 +18,7 @@ PLAN = dict(
     tiers=dict(
         quick=[det("rel", H, "cs-rel", 16, 400, 4, tso=True, time_cap=45),
                det("dbg", H, "cs-dbg", 16, 120, 4, tso=True, time_cap=40),
-               tsan("C20", 4, 80)],
+               tsan("C20", 8, 240)],
         thorough=[det("rel", H, "cs-rel", 16, 1500, 5, tso=True, time_cap=230),
                   det("dbg", H, "cs-dbg", 16, 500, 5, tso=True, time_cap=150),
                   det("enum-wake", H, "cs-rel", 16, 30, 2, tso=True, time_cap=70, enum="wake", enum_cap=150),
